@@ -37,7 +37,10 @@ def run(ctx):
     tie_nodes = [(0, 0), (64, 0), (32, 64), (24, 16), (40, 16)]
     tie_faces = [[0, 1, 3], [3, 1, 4], [1, 2, 4], [4, 2, 3], [0, 3, 2]]
     for n in range(n_ds):
-        if n == 1:
+        if n == 2:
+            # an edge_dimension attribute with nothing stored on edges (the dataset has no such dimension)
+            d = gen.ugrid(rng, w=3, h=2, invalid=False, supplied=set(), edge_dim_declared=True, phantom_edge_dim=True)
+        elif n == 1:
             d = gen.ugrid(rng, mesh=(tie_nodes, tie_faces), invalid=False, supplied={'edge_node'}, edge_dim_declared=True)
         else:
             d = gen.any_dataset(rng)
